@@ -219,7 +219,7 @@ def extract_scalar(repo):
     # arms written by hand between two plain variants, in the macro and in the function
     explicit = []
     for text in (mac, body):
-        for mm in re.finditer(r'\(\s*Value::(\w+)\s*\(\s*(?:ref\s+)?\w+\s*\)\s*,\s*Value::Kind\s*\(\s*ValueKind::(\w+)\s*\)\s*\)\s*=>', text):
+        for mm in re.finditer(r'\(\s*Value::(\w+)\s*\(\s*(?:ref\s+)?\w+\s*\)\s*,\s*Value::Kind\s*\(\s*ValueKind::(\w+)\s*\)\s*\)\s*(?:if\b[^{;]*?)?=>', text):
             if (mm.group(1), mm.group(2)) not in explicit: explicit.append((mm.group(1), mm.group(2)))
     return rows, explicit
 
